@@ -241,11 +241,13 @@ Record normshape := {
   ns_out_of_place : bool;    (* vstart = vstart / nrmv (a new array), not vstart /= nrmv *)
   ns_first_row : bool;       (* V[0] = vstart; vstart and nrmv are bound nowhere else *)
   ns_scale_once : bool;      (* every exit returns _expm_krylov(.., nrmv, dt) = V @ (u @ (nrmv * exp(dt w) * u[0])) *)
-  ns_atol_scaled : bool      (* convergence test allclose(res, new_res, atol=1e-8 * nrmv) *)
+  ns_atol_scaled : bool;     (* convergence test allclose(res, new_res, atol=1e-8 * nrmv) *)
+  ns_fallback_consistent : bool   (* except LinAlgError: the dense tridiagonal matrix handed to np.linalg.eigh has both off-diagonals
+                                     (or exactly the triangle eigh reads): the fallback diagonalises the same T *)
 }.
 Definition ref_norm : normshape :=
   {| ns_two_norm := true; ns_unconditional := true; ns_out_of_place := true; ns_first_row := true;
-     ns_scale_once := true; ns_atol_scaled := true |}.
+     ns_scale_once := true; ns_atol_scaled := true; ns_fallback_consistent := true |}.
 
 Section Wrapper.
   Variable R : CRing.
